@@ -142,3 +142,58 @@ contract(F, "Rule.set_subrecs", source="AbstractRule.set_subrecs", props=["C01",
                   _WIRE.format(f="subobjects", m="get_objects")],
          modifies=["self.subterms", "self.subrecs", "self.subsamplers", "self.subobjects", "self._children"],
          notes="the i-th provider of each kind is the corresponding method of the rule of the i-th child")
+
+# ------------------------------------------------------------------ C01/C09: the parameter map of an equivalence path
+# EquivalencePathRule.constructor composes, step by step, the parent->child parameter maps of the unary rules of the path.
+# Per step (ghost assertions at the end of the loop body, `at('iter0', .)` = value at the start of the iteration):
+#   p is tracked afterwards  <=>  p was tracked and its current name is mapped by this step;   new[p] == step[old[p]]
+REG.classes["ConstructorAny"].fields.update({"extra_parameters": Seq(Dict(Str, Str))})
+klass(F, "EquivalencePathRule", bases=["Rule"], fields={"rules": Seq(Obj("Rule")),
+                                                        "_constructor": Opt(Obj("ConstructorAny"))}) \
+    if "EquivalencePathRule" not in REG.classes else REG.classes["EquivalencePathRule"].fields.update(
+        {"rules": Seq(Obj("Rule")), "_constructor": Opt(Obj("ConstructorAny"))})
+
+
+from . import constructor as _constructor_contracts  # noqa: E402,F401  (declares DisjointUnion)
+if "ConstructorAny" not in REG.classes["DisjointUnion"].bases:
+    REG.classes["DisjointUnion"].bases.append("ConstructorAny")
+
+
+def _is_complement(ex, v, st):
+    return z3.Function("is_complement_ctor", z3.IntSort(), z3.BoolSort())(v.z)
+
+
+contract(F, "EquivalencePathRule.constructor", props=["C01", "C09", "C07"], lenient=True,
+         params={"self": Obj("EquivalencePathRule")}, returns=Obj("ConstructorAny"),
+         locals={"extra_parameters": Dict(Str, Str), "rules_parameters": Dict(Str, Str), "fixed_values": Dict(Str, Int)},
+         isinstance_map={"Complement": _is_complement,
+                         "DisjointUnion": lambda ex, v, st: z3.Not(_is_complement(ex, v, st))},
+         may_raise=["NotImplementedError", "StrategyDoesNotApply", "AssertionError"],
+         # the path consists of unary rules: every step's constructor has exactly one parameter map, the path rule one child
+         requires=["forall(lambda j: implies(0 <= j and j < len(self.rules), len(ctor_of(self.rules[j]).extra_parameters) == 1))",
+                   "len(children_of(self)) == 1"],
+         loops={0: dict(invariant=[], modifies=["all:Obj('AbstractRule')"], ghost_end=[
+             "assert forall(lambda p=Str: (p in extra_parameters) == (at('iter0', p in extra_parameters) and "
+             "(at('iter0', extra_parameters[p]) in rules_parameters)))",
+             "assert forall(lambda p=Str: implies(p in extra_parameters, "
+             "extra_parameters[p] == rules_parameters[at('iter0', extra_parameters[p])]))",
+             "assert implies(not is_complement_ctor(original_constructor), "
+             "same(rules_parameters, original_constructor.extra_parameters[0]))",
+             # a Complement step goes from the child back to the parent: its map is used inverted
+             "assert implies(is_complement_ctor(original_constructor), forall(lambda a=Str: implies("
+             "a in original_constructor.extra_parameters[0], original_constructor.extra_parameters[0][a] in rules_parameters)))",
+             "assert implies(is_complement_ctor(original_constructor), forall(lambda b=Str: implies(b in rules_parameters, "
+             "rules_parameters[b] in original_constructor.extra_parameters[0] and "
+             "original_constructor.extra_parameters[0][rules_parameters[b]] == b)))"])},
+         ghost_stmts={
+             # initially every parameter of the parent class is tracked under its own name
+             "after:assign#0": ["assert forall(lambda p=Str: (p in extra_parameters) == (p in self.comb_class.extra_parameters))",
+                                "assert forall(lambda p=Str: implies(p in extra_parameters, extra_parameters[p] == p))"],
+             # child parameters no parent parameter arrives at are fixed to 0
+             "after:assign#5": [
+                 "assert forall(lambda k=Str: (k in fixed_values) == ((k in children_of(self)[0].extra_parameters) and "
+                 "not exists(lambda p=Str: p in extra_parameters and extra_parameters[p] == k)))",
+                 "assert forall(lambda k=Str: implies(k in fixed_values, fixed_values[k] == 0))"]},
+         modifies=["self._constructor", "all:Obj('AbstractRule')", "all:Dict(Str, Str)", "all:Dict(Str, Int)"],
+         notes="each step of the path composes the current map with the step's parameter map")
+spec_fn("is_complement_ctor", lambda ex, st, v: Val(Bool, z3.Function("is_complement_ctor", z3.IntSort(), z3.BoolSort())(v.z)))
